@@ -36,7 +36,7 @@ WRITERS = [
 ]
 
 REMOVERS = {"unlink", "remove", "rmtree", "rmdir", "removedirs"}
-MOVERS = {"rename", "replace", "move"}
+MOVERS = {"rename", "replace"}
 
 
 def _effect(call, dest_names, dest_exprs):
@@ -55,6 +55,10 @@ def _effect(call, dest_names, dest_exprs):
             return "absent"
         if (recv is None or recv_is_mod) and call.args and is_dest(call.args[0]):
             return "absent"
+    if name in ("move", "copy", "copy2", "copyfile", "copyfileobj", "copytree") and (recv is None or recv_is_mod) and len(call.args) >= 2 and is_dest(call.args[1]):
+        # shutil.move falls back to copy-then-unlink across file systems (and moves INTO an existing directory):
+        # the destination is truncated and filled incrementally, i.e. partial until the call returns
+        return "partial"
     if name in MOVERS:
         if recv is not None and not recv_is_mod and call.args and is_dest(call.args[0]):
             return "new"
